@@ -835,6 +835,13 @@ func (x *Exec) unrollLoop(st *State, ls *loopSpec) []outcome {
 				exits = append(exits, s)
 				continue
 			}
+			if !c.IsTrue() && !c.IsFalse() {
+				c = x.simplifyWithPC(s, c)
+			}
+			if c.IsFalse() {
+				exits = append(exits, s)
+				continue
+			}
 			if !c.IsTrue() {
 				unsupported("%s: loop %s has no invariant and its condition is not decided by constant propagation (iteration %d): %s", x.pos(ls.stmt), ls.id, iter, c)
 			}
